@@ -25,6 +25,10 @@ Monitors
   valid.forwarded   a valid request is forwarded and answered
   layer.exception   no exception escapes the layers while translating
   peer.protocol     hyper-h2 accepts everything mitmproxy writes on h2 connections
+  flow.request.unchanged   forwarding does not change the captured flow: after the exchange the flow's request equals its snapshot
+                    at the `request` hook (headers incl. Host, authority, method, path, host/port/scheme, content, trailers)
+  replay.h2.semantics      "translated twice": the SAME flow object sent again with the clientplayback wiring (MockServer below a
+                    transparent HttpLayer) towards an HTTP/2 origin is decoded there as the request the client originally sent
 """
 import random
 import re
@@ -40,7 +44,7 @@ LEVEL = "exploration"
 ENGINE = "sansio"
 BUDGET = {"quick": (700, 18), "thorough": (60000, 240)}
 WORKERS = {"quick": 4, "thorough": 16}
-REQUIRED = ["up.h1.single", "up.semantics", "down.h1.sequence", "down.semantics", "valid.forwarded", "adversarial.outcome", "layer.exception"]
+REQUIRED = ["up.h1.single", "up.semantics", "down.h1.sequence", "down.semantics", "valid.forwarded", "adversarial.outcome", "layer.exception", "flow.request.unchanged", "replay.h2.semantics"]
 TECHNIQUE = "runtime monitoring: differential decoding at both wire boundaries (own RFC 9112 reader, hyper-h2, raw hpack frames)"
 RULE = (
     "fixed matrix first (every adversarial pseudo-header / content-length class x {h2,h3} client x {h1,h2} next hop, one class per case), then random: "
@@ -664,6 +668,45 @@ def classify(kind, info):
 # one case
 # ----------------------------------------------------------------------------------------------------------------------
 
+def replay_towards_h2(flow, opts, r):
+    """Send the SAME flow object once more, the way the clientplayback addon does (MockServer below a transparent HttpLayer),
+    towards an HTTP/2 origin.  -> (semantic request the origin decoded | None, error text)"""
+    from mitmproxy.addons.clientplayback import MockServer
+    from mitmproxy.connection import Server
+
+    flow.response = None
+    flow.error = None
+    client = sansio.make_client("regular")
+    origin = []
+
+    def sf(drv, conn):
+        conn.alpn = b"h2"
+        p = P.H2ServerPeer(lambda peer, sid, rec: [("headers", [(b":status", b"204")], True)], r, name="replay")
+        origin.append(p)
+        return p
+
+    def top(c):
+        c.server = Server(address=(flow.request.host, flow.request.port))
+        l = layers.HttpLayer(c, HTTPMode.transparent)
+        l.connections[client] = MockServer(flow, c.fork())
+        return l
+
+    d2 = sansio.Driver(top, client=client, options=opts, rng=r, addons=[], server_factory=sf, schedule="fifo", max_steps=1500)
+    d2.start()
+    d2.run()
+    d2.teardown()
+    if d2.exceptions:
+        return None, f"layer exception {d2.exceptions[0][:2]}"
+    for p in origin:
+        if p.protocol_errors:
+            return None, f"h2 origin: {p.protocol_errors[0]}"
+        for sid in sorted(p.streams):
+            rec = p.streams[sid]
+            if rec["headers"] is not None and rec["ended"]:
+                return sem_of_h2_request(rec), None
+    return None, "no complete request reached the origin"
+
+
 def run_case(ctx, opts, forced=None):
     """forced = (pair, mutation name): one deterministic cell of the fixed matrix (single exchange, exactly that adversarial class)."""
     r = ctx.rng
@@ -671,6 +714,8 @@ def run_case(ctx, opts, forced=None):
     mode = r.choice(MODES)
     if forced is not None:
         pair = forced[0]
+        if len(forced) > 2:
+            mode = forced[2]
     cv, sv = pair[:2], pair[2:]
     if cv == "h3" and mode.startswith("reverse"):
         mode = "transparent"  # the HTTP/3 leg drives HttpLayer directly (regular / transparent), see vf/peers_h3.py
@@ -691,7 +736,8 @@ def run_case(ctx, opts, forced=None):
     stream_req = r.random() < 0.2
     stream_resp = r.random() < 0.2
     if forced is not None:
-        adv_req, adv_resp, stream_req, stream_resp = cv != "h1", False, False, False
+        adv_req, adv_resp, stream_req, stream_resp = (cv != "h1" and forced[1] != "valid-replay"), False, False, False
+    replay_twice = (forced is not None and forced[1] == "valid-replay") or r.random() < 0.25
     # flow-control pressure towards h2 next hops: the origin's window limits request bodies, the client's window response bodies
     srv_window = pick_window(r, [len(q["body"] or b"") for q in reqs]) if sv == "h2" else None
     cli_window = pick_window(r, [len(gen_response(salt, q["tag"], q["method"], sv)["body"]) for q in reqs]) if cv == "h2" else None
@@ -1076,6 +1122,46 @@ def run_case(ctx, opts, forced=None):
                 viol("downstream-response-differs", {"tag": tag, "diff": df, "block": blk[:12]}, {"down": wire_facts_h1_responses(bytes(d.out[client]), tag) if cv == "h1" else None})
             outcomes.append("resp-forwarded")
 
+    # ------------------------------------------------------------ the recorded flow must not be changed by forwarding it, and
+    # forwarding the SAME flow object a second time (client replay wiring) must produce an equivalent request
+    flows_by_tag = {}
+    snap_at_request_hook = {}
+    for step, name, hook, snap in d.hooks:
+        f = getattr(hook, "flow", None)
+        if f is None or snap is None or not snap.get("request"):
+            continue
+        m = TAGRE.search(snap["request"]["path"].encode("latin-1", "replace"))
+        if m and m.group(0) in by_tag:
+            flows_by_tag[m.group(0)] = f
+            if name == "request":
+                snap_at_request_hook[m.group(0)] = snap["request"]
+    for tag, before in snap_at_request_hook.items():
+        if by_tag[tag]["adv"] is not None or up_by_tag.get(tag) is None:
+            continue
+        ctx.count("flow.request.unchanged")
+        after = sansio.snap_msg(flows_by_tag[tag].request)
+        changed = [(k, _s(before[k]) if not isinstance(before[k], tuple) else before[k][:12], _s(after[k]) if not isinstance(after[k], tuple) else after[k][:12])
+                   for k in ("headers", "authority", "method", "path", "host", "port", "scheme", "http_version", "content", "trailers") if before[k] != after[k]]
+        if changed:
+            viol("recorded-request-changed-by-forwarding", {"tag": tag, "changed": changed})
+    if replay_twice and not stream_req:
+        for q in reqs:
+            tag = q["tag"]
+            f = flows_by_tag.get(tag)
+            if q["adv"] is not None or f is None or client_outcome.get(tag) != "response" or up_by_tag.get(tag) is None or f.request.raw_content is None:
+                continue
+            got2, rerr = replay_towards_h2(f, opts, r)
+            ctx.count("replay.h2.semantics")
+            if got2 is None:
+                viol("replayed-request-not-forwarded-or-refused-by-h2-origin", {"tag": tag, "detail": rerr})
+                continue
+            df = diff_request(expected_request_sem(q), got2, False)
+            if (got2["trailers"] or None) != (q["trailers"] or None):
+                df.append(("trailers", got2["trailers"], q["trailers"]))
+            if df:
+                viol("replayed-request-differs", {"tag": tag, "diff": df, "pseudo": got2.get("pseudo")})
+            outcomes.append("replayed")
+
     hostile = bool(adv_req and any(q["adv"] for q in reqs)) or any(rs["adv"] for rs in responses.values())
     sig = (pair, mode.split(":")[0], tuple(req_feats), tuple(resp_feats), tuple(sorted(set(outcomes))), stream_req, stream_resp,
            (srv_window is not None and srv_window <= 64, cli_window is not None and cli_window <= 64))
@@ -1086,7 +1172,8 @@ def run_case(ctx, opts, forced=None):
 
 # Fixed matrix, run before the random cases in every tier: every adversarial pseudo-header / content-length class on every
 # (client version with pseudo-headers) x (next-hop version) pair.
-MATRIX = [(pair, m) for pair in ("h2h1", "h2h2", "h3h1", "h3h2") for m in sorted(REQ_MUTATIONS) + CL_MUTATIONS]
+MATRIX = [(pair, "valid-replay", mode) for mode in MODES for pair in ("h1h2", "h2h2", "h2h1", "h3h2", "h3h1")] + [
+    (pair, m) for pair in ("h2h1", "h2h2", "h3h1", "h3h2") for m in sorted(REQ_MUTATIONS) + CL_MUTATIONS]
 
 
 def run(ctx):
